@@ -653,9 +653,9 @@ func (a *Act) typeAssert(ctx *blockCtx, x *ssa.TypeAssert) {
 
 func (g *Gen) mapRead(st State, m Val, k Val, mt *types.Map) Val {
 	hv, _, vs := g.w.mapHeap(mt)
-	cur := "(select " + g.stateGet(st, hv) + " " + m.T + ")"
+	_ = hv
 	ks := g.w.sortOf(mt.Key())
-	t := "(ite (= " + m.T + " ref_nil) " + g.w.zeroSort(vs) + " (" + g.mgetFn(ks, vs) + " " + cur + " " + k.T + "))"
+	t := "(" + g.mgetFn(ks, vs) + " " + g.mapvalTerm(st, m, mt) + " " + k.T + ")"
 	return Val{T: t, S: vs, G: mt.Elem()}
 }
 
@@ -677,8 +677,7 @@ func (a *Act) lookup(ctx *blockCtx, x *ssa.Lookup) {
 		v.T = n
 	}
 	if x.CommaOk {
-		hv, _, _ := g.w.mapHeap(mt)
-		ok := and(not("(= "+bv.T+" ref_nil)"), "(select (map_dom (select "+g.stateGet(ctx.st, hv)+" "+bv.T+")) "+kv.T+")")
+		ok := "(select (map_dom " + g.mapvalTerm(ctx.st, bv, mt) + ") " + kv.T + ")"
 		a.tuples[x] = []Val{v, boolT(ok)}
 		a.set(x, Val{T: "$tuple", S: "Tuple"})
 		return
@@ -832,4 +831,14 @@ func (g *Gen) assumeType(v Val) {
 			}
 		}
 	}
+}
+
+// mapvalTerm: the mathematical value of a Go map (a nil map is the empty map), as an
+// uninterpreted function of the map heap with a defining axiom (usable in triggers).
+func (g *Gen) mapvalTerm(st State, m Val, mt *types.Map) string {
+	hv, ks, vs := g.w.mapHeap(mt)
+	n := "mapval_" + sanitize(ks) + "_" + sanitize(vs)
+	empty := "(mk_map ((as const (Array " + ks + " Bool)) false) ((as const (Array " + ks + " " + vs + ")) " + g.w.zeroSort(vs) + "))"
+	g.extraDecl(n, "(declare-fun "+n+" ((Array Ref (MapV "+ks+" "+vs+")) Ref) (MapV "+ks+" "+vs+"))\n(assert (forall ((h (Array Ref (MapV "+ks+" "+vs+"))) (m Ref)) (! (= ("+n+" h m) (ite (= m ref_nil) "+empty+" (select h m))) :pattern (("+n+" h m)))))")
+	return "(" + n + " " + g.stateGet(st, hv) + " " + m.T + ")"
 }
